@@ -334,4 +334,7 @@ LEVEL_TEXT = ("Deductive: the mirror symmetry of every derived structure (58 enz
               "and, by base/step over the chain, that the reversed chain of reverse-complemented fragments is the reverse "
               "complement of the product; reverse_complement and the fragment extractors are verified bodies.")
 LEVEL_NOTE = ("Assumed: rc axioms, re mirror semantics for self-mirror patterns (RE5 mirror), Bio.Restriction.elucidate, feature flip. "
-              "Bounded part (not proved): one scenario per geometry and chain length at random rotations.")
+              "The lemma about the product presupposes that both assemblies give a product: one recorded finding (known_findings.json) -- "
+              "two modules whose downstream overhangs are reverse complements of each other assemble, their mirror image is refused "
+              "(the reverse-complement test looks at start overhangs only, as C03 prescribes). Bounded part (not proved): one scenario per "
+              "geometry and chain length at random rotations, spellings, ambiguity letters, unused modules and scars at the chain ends.")
